@@ -180,16 +180,18 @@ def check_C08(ctx):
     ctx.log("universe: %d types; exact relation: %d pairs, %d equivalent pairs; DevNeverKind: %d non-transitive (a<:b) pairs" %
             (n, sum(len(r) for r in te["rows"]), te["equivalent"], td["nontransitive"]))
     exact = [list(r) for r in te["rows"]]
+    devrows = [list(r) for r in td["rows"]]
     if corrupt_requested():
         i = n // 2
         j = 1 + (n // 3)
-        if j in exact[i]:
-            exact[i].remove(j)
-        else:
-            exact[i].append(j)
+        for tab in (exact, devrows):      # the corrupted entry is "the specification's" in both variants
+            if j in tab[i]:
+                tab[i].remove(j)
+            else:
+                tab[i].append(j)
         ctx.log("NEGATIVE CONTROL: flipped entry (%d, %d) of the TLC subtype table" % (i + 1, j))
     inp = os.path.join(ctx.work, "subtype.table.json")
-    json.dump({"types": te["types"], "exact": exact, "dev": td["rows"]}, open(inp, "w"))
+    json.dump({"types": te["types"], "exact": exact, "dev": devrows}, open(inp, "w"))
     summ, fails, samples = driver_rows(ctx, binary, "sub", inp, "sub")
     for f in fails:
         sig = {"kind": f["kind"], "deviation": f.get("deviation", "none"), "impl": f.get("impl", "")}
